@@ -23,4 +23,10 @@ func init() {
 		return nil
 	}
 	regIfAbsent("github.com/golang/protobuf/proto.Unmarshal", hook)
+	// Registration calls in the init of generated packages feed the reflection
+	// registry only; nothing interpretable depends on it.
+	nop := func(m *Machine, fr *frame, a []Value) Value { return nil }
+	for _, n := range []string{"RegisterType", "RegisterEnum", "RegisterFile", "RegisterMapType", "RegisterExtension"} {
+		regIfAbsent("github.com/golang/protobuf/proto."+n, nop)
+	}
 }
